@@ -23,7 +23,7 @@ def r04a(model: Model, rr: RuleResult):
         if len(cs) >= n:
             rr.ok(f"{modname}.{fn}: {len(cs)} call(s) to glyph.glyph_name")
         else:
-            rr.bad(fi, fi.node, f"{modname}.{fn} no longer derives glyph names with glyph.glyph_name ({len(cs)} of {n} calls): names written to the "
+            rr.bad_shape(fi, fi.node, f"{modname}.{fn} no longer derives glyph names with glyph.glyph_name ({len(cs)} of {n} calls): names written to the "
                    f"glyph map, referenced by the ligature rules and created for blank glyphs would disagree", construct=f"{modname}.{fn}: glyph_name calls {len(cs)}/{n}")
     g = model.func("features", "generate_fea")
     t = " ".join(norm(st) for st in ast.walk(g.node) if isinstance(st, ast.Assign))
@@ -166,12 +166,12 @@ def r04b(model: Model, rr: RuleResult):
     if nb and norm(nb[0].value) in ("all_codepoints - direct_mapped_codepoints", "all_codepoints.difference(direct_mapped_codepoints)"):
         rr.ok("need_blanks = all_codepoints - direct_mapped_codepoints")
     else:
-        rr.bad(e, e.node, "need_blanks is not (all codepoints) minus (directly mapped codepoints)", construct="need_blanks")
+        rr.bad_shape(e, e.node, "need_blanks is not (all codepoints) minus (directly mapped codepoints)", construct="need_blanks")
     uni = [st for st in ast.walk(e.node) if isinstance(st, ast.Assign) and norm(st.targets[0]) == "glyph.unicode"]
     if uni and norm(uni[0].value) == "codepoint":
         rr.ok("each blank glyph maps its own codepoint")
     else:
-        rr.bad(e, e.node, "blank glyphs are not mapped from their codepoint", construct="blank glyph unicode")
+        rr.bad_shape(e, e.node, "blank glyphs are not mapped from their codepoint", construct="blank glyph unicode")
     g = model.func("write_font", "_generate_color_font")
     ens = find_calls(g, "_ensure_codepoints_will_have_glyphs")
     if ens and [norm(a) for a in ens[0].args] == ["ufo", "inputs"]:
@@ -219,7 +219,7 @@ def r04c(model: Model, rr: RuleResult):
     if "gid = glyph_order.index(glyph_input.glyph_name)" in t and "gid = len(glyph_order)" in t and "glyph_order.append(glyph_input.glyph_name)" in t and "ufo.glyphOrder = glyph_order" in t:
         rr.ok("glyph ids: index of an existing name, else appended at the end; UFO glyph order assigned from that list")
     else:
-        rr.bad(g, g.node, "glyph id bookkeeping changed", construct="_generate_color_font: gid bookkeeping")
+        rr.bad_shape(g, g.node, "glyph id bookkeeping changed", construct="_generate_color_font: gid bookkeeping")
     cr = [c for c in calls_in(g) if norm(c.func) == "ColorGlyph.create"]
     if cr and [norm(x) for x in cr[0].args[3:6]] == ["gid", "glyph_input.glyph_name", "glyph_input.codepoints"] and norm(cr[0].args[6]) == "glyph_input.svg":
         rr.ok("ColorGlyph.create(gid, glyph name, codepoints, svg) of the same input")
@@ -248,14 +248,20 @@ def r04d(model: Model, rr: RuleResult):
     cfg = cfg_of(c)
     w = [st for st in walk_body(c) if isinstance(st, ast.Assign) and norm(st.targets[0]) == "base_glyph.width"]
     ok2 = False
+    extra_guard = None
     for st in w:
         if "_advance_width(view_box, font_config)" in norm(st.value):
             facts = [(norm(e), pol) for e, pol in guard_facts(cfg, cfg.node_for(st))]
             ok2 = facts == [("view_box is not None", True)]
+            if not ok2 and ("view_box is not None", True) in facts:
+                extra_guard = (st, [f for f in facts if f != ("view_box is not None", True)])
     if ok2:
         rr.ok("ColorGlyph.create applies the advance rule whenever a viewBox (or bitmap size) is known")
+    elif extra_guard is not None:
+        rr.bad(c, extra_guard[0], f"the advance rule is applied only when additionally {extra_guard[1]}: a glyph that already exists in the UFO skeleton (.notdef, .space mapped to "
+               f"artwork) keeps the skeleton's width while bitmap metrics and clip boxes use the artwork's", construct=f"ColorGlyph.create: width under {extra_guard[1]}")
     else:
-        rr.bad(c, c.node, "the advance rule is not applied under `view_box is not None`", construct="ColorGlyph.create: width")
+        rr.bad_shape(c, c.node, "the advance rule is not applied under `view_box is not None`", construct="ColorGlyph.create: width")
     ig = model.func("write_font", "_init_glyph")
     iw = [st for st in walk_body(ig) if isinstance(st, ast.Assign) and norm(st.targets[0]) == "glyph.width"]
     if len(iw) == 1 and "color_glyph" in norm(iw[0].value) and norm(iw[0].value).endswith(".width"):
@@ -268,7 +274,7 @@ def r04d(model: Model, rr: RuleResult):
     if "svg.view_box()" in srcs and "Rect(0, 0, *bitmap.size)" in srcs:
         rr.ok("viewBox comes from the SVG, or from the bitmap's pixel size")
     else:
-        rr.bad(c, c.node, f"viewBox sources are {srcs}", construct="ColorGlyph.create: view_box")
+        rr.bad_shape(c, c.node, f"viewBox sources are {srcs}", construct="ColorGlyph.create: view_box")
 
 
 # --------------------------------------------------------------------------------------------- R04e: name language
@@ -491,6 +497,9 @@ def r04f(model: Model, rr: RuleResult):
         got = uniqueness_checks(model, attr)
         if got:
             rr.ok(f"{what}: {got[0]}")
+        elif getattr(uniqueness_checks, "pair_keys", None):
+            pfi, pst, ptxt = uniqueness_checks.pair_keys[0]
+            rr.bad(pfi, pst, f"the only duplicate check is keyed on glyph name AND codepoints together (`{ptxt}`): inputs sharing just the {what} are merged", construct=f"uniqueness check on the pair instead of {attr}")
         else:
-            rr.bad(gfi, gfi.node, f"no check rejects two inputs with the same {what}: one source's artwork would replace or merge with another's",
+            rr.bad_shape(gfi, gfi.node, f"no check rejects two inputs with the same {what}: one source's artwork would replace or merge with another's",
                    construct=f"_generate_color_font: no uniqueness check on {attr}")
